@@ -89,6 +89,53 @@ def run(rep: Report, prog: Program, tier: str) -> None:
     else:
         rep.fail(mk_finding(prog, PROP, "C15-REMB", add, add.node, f"ssrcs written as {keys} / elsewhere in {others}", construct="ssrcs writers"))
 
+    # eviction policy: the statements of add() that maintain `ssrcs`, evaluated on tables around the 255 limit
+    book = [st_ for st_ in add.node.body if any(isinstance(x, ast.Attribute) and x.attr == "ssrcs" for x in ast.walk(st_)) and not any(isinstance(x, ast.Return) for x in ast.walk(st_))]
+    if not book:
+        raise AnalysisError("statements maintaining self.ssrcs not found at the top level of add()")
+    from types import SimpleNamespace as _NS
+
+    from engine.peval import Evaluator as _Ev, Raised as _Raised
+
+    def _xh(call, evl):
+        nm = unparse(call.func)
+        if nm == "iter" and len(call.args) == 1:
+            return iter(list(evl.ev(call.args[0])))
+        if nm == "next" and call.args:
+            it = evl.ev(call.args[0])
+            for x in it:
+                return x
+            raise _Raised("StopIteration", call)
+        if isinstance(call.func, ast.Attribute) and call.func.attr in ("pop", "popitem") and isinstance(evl.ev(call.func.value), dict):
+            d = evl.ev(call.func.value)
+            try:
+                return getattr(d, call.func.attr)(*[evl.ev(a) for a in call.args])
+            except KeyError:
+                raise _Raised("KeyError", call)
+        return NotImplemented
+    limit = prog.try_const(ast.Name(id="REMB_MAX_SSRCS", ctx=ast.Load()), add.module)
+    if not isinstance(limit, int):
+        raise AnalysisError("REMB_MAX_SSRCS cannot be folded")
+    for n_old, new_known in ((0, False), (limit - 1, False), (limit, False), (limit, True), (limit + 40, False)):
+        table = {1000 + i: i for i in range(n_old)}
+        new = 1000 + n_old // 2 if new_known else 5
+        me = _NS(ssrcs=dict(table))
+        e6 = _Ev(prog, add.module, add.cls, {"self": me, "ssrc": new, "arrival_time_ms": 999999, "now_ms": 999999}, _xh)
+        try:
+            for st_ in book:
+                e6.exec_stmt(st_)
+        except Exception as ex:
+            raise AnalysisError(f"cannot evaluate the SSRC bookkeeping of add(): {ex}")
+        keys = list(me.ssrcs)
+        expect = [k for k in table if k != new] + [new] if not new_known else list(table)
+        expect = expect[-limit:] if len(expect) > limit else expect
+        label = f"{n_old} known SSRCs, packet from {'a known' if new_known else 'a new'} SSRC"
+        if new in me.ssrcs and len(keys) <= limit and set(keys) == set(expect):
+            rep.ok("C15-REMB", f"bookkeeping: {label}", sample=f"{len(keys)} listed, newest kept, oldest dropped first")
+        else:
+            why = "the SSRC of the packet just received is not listed" if new not in me.ssrcs else (f"{len(keys)} SSRCs listed" if len(keys) > limit else "a recent SSRC was dropped instead of the oldest")
+            rep.fail(mk_finding(prog, PROP, "C15-REMB", add, book[-1], f"bookkeeping with {label}: {why}", construct="ssrc eviction: " + why[:50]))
+
     # ---- C15-WINDOW
     rep.rule("C15-WINDOW", "bucket/total paired updates", min_instances=4)
     rc = prog.cls(RC)
